@@ -1,6 +1,7 @@
 package main
 
 import (
+	"sync"
 	"fmt"
 	"math/big"
 	"sort"
@@ -39,6 +40,8 @@ var termCounter int
 var internTab = map[string]*Term{}
 
 // mk builds a hash-consed term: structurally equal terms are pointer-equal.
+var internMu sync.Mutex
+
 func mk(op string, sort Sort, args ...*Term) *Term {
 	var kb strings.Builder
 	kb.WriteString(op)
@@ -51,6 +54,9 @@ func mk(op string, sort Sort, args ...*Term) *Term {
 		fmt.Fprintf(&kb, ",%d", a.id)
 	}
 	key := kb.String()
+	// queries are built by parallel workers, which may construct terms too
+	internMu.Lock()
+	defer internMu.Unlock()
 	if t, ok := internTab[key]; ok {
 		return t
 	}
@@ -68,6 +74,8 @@ func mk(op string, sort Sort, args ...*Term) *Term {
 func Sym(name string, sort Sort) *Term { return mk(name, sort) }
 
 func BoundVar(name string, sort Sort) *Term {
+	internMu.Lock()
+	defer internMu.Unlock()
 	termCounter++
 	t := &Term{Op: name, Sort: sort, id: termCounter, Bound: true}
 	internTab[name+"\x00"+string(sort)] = t
@@ -404,8 +412,10 @@ func Forall(vars []*Term, body *Term) *Term {
 	if body.isTrue() {
 		return tTrue
 	}
+	internMu.Lock()
 	termCounter++
 	t := &Term{Op: "forall", Args: []*Term{body}, Sort: SBool, id: termCounter}
+	internMu.Unlock()
 	t.QVars = vars
 	// a closed quantifier is not "bound" from the outside
 	t.Bound = false
@@ -416,8 +426,10 @@ func Exists(vars []*Term, body *Term) *Term {
 	if body.isFalse() {
 		return tFalse
 	}
+	internMu.Lock()
 	termCounter++
 	t := &Term{Op: "exists", Args: []*Term{body}, Sort: SBool, id: termCounter}
+	internMu.Unlock()
 	t.QVars = vars
 	t.Bound = false
 	return t
@@ -443,12 +455,18 @@ func (t *Term) write(sb *strings.Builder, names map[*Term]string) {
 			sb.WriteString("(" + v.Op + " " + string(v.Sort) + ")")
 		}
 		sb.WriteString(") ")
-		if len(t.Pats) > 0 {
+		var pats []*Term
+		for _, p := range t.Pats {
+			if patternOK(p, map[*Term]bool{}) {
+				pats = append(pats, p)
+			}
+		}
+		if len(pats) > 0 {
 			sb.WriteString("(! ")
 		}
 		t.Args[0].write(sb, names)
-		if len(t.Pats) > 0 {
-			for _, p := range t.Pats {
+		if len(pats) > 0 {
+			for _, p := range pats {
 				sb.WriteString(" :pattern (")
 				p.write(sb, names)
 				sb.WriteString(")")
@@ -550,6 +568,26 @@ func sortedKeys[V any](m map[string]V) []string {
 	}
 	sort.Strings(ks)
 	return ks
+}
+
+// patternOK: solvers reject instantiation patterns that contain logical
+// connectives or if-then-else; such patterns are left out (the solver then
+// chooses its own).
+func patternOK(t *Term, seen map[*Term]bool) bool {
+	if seen[t] {
+		return true
+	}
+	seen[t] = true
+	switch t.Op {
+	case "ite", "and", "or", "not", "=>", "=", "distinct", "<=", "<", ">=", ">", "forall", "exists":
+		return false
+	}
+	for _, a := range t.Args {
+		if !patternOK(a, seen) {
+			return false
+		}
+	}
+	return true
 }
 
 // ForallPat is Forall with explicit instantiation patterns.
